@@ -36,6 +36,11 @@ pub struct LRec {
 }
 
 pub static LLOG: Mutex<Vec<LRec>> = Mutex::new(Vec::new());
+thread_local! {
+    /// fault injection: the next `on_exit` of the outermost recording layer (layer 1) on this thread panics,
+    /// after every layer has been told about the exit
+    pub static PANIC_NEXT_ON_EXIT: std::cell::Cell<bool> = std::cell::Cell::new(false);
+}
 static NEXT_SERIAL: AtomicU64 = AtomicU64::new(1);
 
 pub fn take_llog() -> Vec<LRec> {
@@ -238,6 +243,10 @@ where
     fn on_exit(&self, id: &Id, ctx: Context<'_, C>) {
         let cur = ctx.lookup_current().map(|s| s.id().into_u64()).unwrap_or(0);
         self.push(LRec { kind: "on_exit", id: id.into_u64(), cur, flag: ctx.span(id).is_some(), ..Default::default() });
+        if self.layer == 1 && PANIC_NEXT_ON_EXIT.with(|c| c.replace(false)) {
+            crate::fw::fault("panic_in_on_exit");
+            panic!("injected panic inside Subscribe::on_exit");
+        }
     }
     fn on_close(&self, id: Id, ctx: Context<'_, C>) {
         let mut r = LRec { kind: "on_close", id: id.into_u64(), ..Default::default() };
